@@ -61,8 +61,9 @@ InitObs == [
   started   |-> {},         \* messages whose MAIL the server has read
   quitSent  |-> FALSE,
   armed     |-> FALSE,      \* a deadline is armed on the transport
-  stalled   |-> FALSE,
+  stalled   |-> FALSE,      \* the server went silent during the running call
   authOpen  |-> FALSE,      \* between AUTH and the end of the exchange
+  authMech  |-> "",         \* mechanism named by the latest AUTH command
   authDone  |-> FALSE,
   ret       |-> NoRet,
   viol      |-> {} ]
@@ -94,8 +95,8 @@ CmdFlags(o, e) ==
             (o.cfg.policy = "mandatory" /\ ~e.enc) => v \in CleartextAllowed)
   \cup Flag("C07_ImplicitTLS", o.cfg.policy = "implicit" => e.enc)
   \cup Flag("C07_CredInTLS",
-            (e.cred /\ ~e.enc) => (o.cfg.noenc \/ o.cfg.hostkind = "localhost"
-                                    \/ o.cfg.authtype = "CUSTOM"))
+            (e.cred /\ ~e.enc /\ (IF v = "AUTH" THEN e.mech ELSE o.authMech) \in {"PLAIN", "LOGIN"})
+               => (o.cfg.noenc \/ o.cfg.hostkind = "localhost"))
   \cup Flag("C07_AutoDiscover",
             (o.cfg.authtype = "AUTODISCOVER" /\ v = "AUTH" /\ ~e.enc)
                => e.mech \notin {"PLAIN", "LOGIN", "XOAUTH2"})
@@ -109,6 +110,7 @@ ObserveCmd(o, e) ==
      !.started  = IF v = "MAIL" /\ e.m > 0 THEN @ \cup {e.m} ELSE @,
      !.quitSent = @ \/ v = "QUIT",
      !.authOpen = @ \/ v = "AUTH",
+     !.authMech = IF v = "AUTH" THEN e.mech ELSE @,
      !.viol     = @ \cup CmdFlags(o, e)]
 
 -----------------------------------------------------------------------------
@@ -176,16 +178,19 @@ ObserveDrop(o, e) ==
 (* API return: C19 is decided here, C03 / C20 when all server events are in *)
 
 Dialing(op) == op \in {"Dial", "DialAndSend"}
+(* C17 names DialWithContext, DialAndSend, Send and Reset *)
+Bounded(op) == op \in {"Dial", "DialAndSend", "Send", "Reset"}
 
 ObserveRet(o, e) ==
   [o EXCEPT
-     !.ret  = IF e.op \in {"Dial", "Send", "DialAndSend"} THEN e ELSE @,
+     !.ret  = IF e.op \in {"Dial", "Send", "DialAndSend", "Reset"} THEN e ELSE @,
      !.viol = @ \cup Flag("C19_ClosedOnError",
                           (Dialing(e.op) /\ e.err /\ o.conn # "none") => o.conn = "closed")
                 \cup Flag("C19_ClosedAfterDialAndSend",
                           (e.op = "DialAndSend" /\ ~e.err) => (o.conn = "closed" /\ o.quitSent))
-                \cup Flag("C17_Bounded", e.elapsed = "within")
-                \cup Flag("C17_ErrorOnStall", o.stalled => e.err)]
+                \cup Flag("C17_Bounded", Bounded(e.op) => e.elapsed = "within")
+                \cup Flag("C17_ErrorOnStall", o.stalled => e.err),
+     !.stalled = FALSE]
 
 Committed(o, m) == \E i \in DOMAIN o.committed : o.committed[i].m = m
 FailsOf(o, m)   == {f \in o.fails : f.m = m /\ f.step # "other"}
@@ -261,7 +266,7 @@ ProjOf(o, e) ==
   ELSE [v |-> e.verb,
         m |-> IF e.verb \in {"MAIL", "RCPT"} THEN e.m
               ELSE IF e.verb \in {"NOOP", "RSET", "DATA"} THEN o.last ELSE 0,
-        r |-> IF e.verb \in {"RCPT", "EHLO", "HELO"} THEN e.r ELSE 0]
+        r |-> IF e.verb \in {"RCPT", "EHLO", "HELO", "AUTHRESP"} THEN e.r ELSE 0]
 
 RetProj(x) ==
   IF ~("msgs" \in DOMAIN x) THEN [op |-> x.op, err |-> x.err]
@@ -283,9 +288,10 @@ Observe(o, e) ==
     [] e.ev = "reply"  -> ObserveReply(o, e)
     [] e.ev = "drop"   -> ObserveDrop(o, e)
     [] e.ev = "tls"    -> [o EXCEPT !.enc = e.ok, !.helo = FALSE, !.caps = {},
-                                    !.ss = IF e.ok THEN "idle" ELSE @]
+                                    !.ss = IF e.ok THEN "idle" ELSE @,
+                                    !.viol = @ \cup Flag("C07_CertValidated", e.ok => o.cfg.hs = "ok")]
     [] e.ev = "setdl"  -> [o EXCEPT !.armed = e.armed]
-    [] e.ev = "stall"  -> [o EXCEPT !.stalled = TRUE]
+    [] e.ev = "stall"  -> [o EXCEPT !.stalled = TRUE, !.srvGone = TRUE, !.pend = NoCmd]
     [] e.ev = "log"    -> [o EXCEPT !.viol = @
                               \cup Flag("C16_NoSecretInLog", o.cfg.logauth \/ ~e.leak)
                               \cup Flag("C16_WindowCloses", e.post => e.verbatim)]
